@@ -112,7 +112,7 @@ func (k *Keys) readInputFiltered() (keys []byte, err error) {
 	buf := make([]byte, keyScanBufSize)
 
 	read, err := Stdin.Read(buf)
-	if err != nil && errors.Is(err, io.EOF) {
+	if err != nil && (errors.Is(err, io.EOF) || read == 0) {
 		return
 	}
 
